@@ -41,6 +41,9 @@ type Plan struct {
 	Swarm      Swarm  `json:"swarm"`
 	Steps      []Step `json:"steps"`
 	Schedule   []int  `json:"schedule,omitempty"`
+	// Pool names the key pool the plan's key indices refer to: seed, keys per type, leading-zero keys per curve and
+	// coordinate (zero value: the default pool).
+	Pool [3]uint64 `json:"pool,omitempty"`
 }
 
 // Step kinds.
